@@ -69,6 +69,11 @@ type Machine struct {
 	ufMemo    map[string]Val
 	pathCalls map[string]int
 	watch     map[string]bool
+	pinned    map[*Term]uint64
+	pinGen    int
+	pevalMemo map[*Term]uint64
+	pevalNeg  map[*Term]int
+	passerts  []pendingAssert
 	lastArgs  map[string][]Val
 	observed  []string
 
@@ -83,7 +88,9 @@ type Machine struct {
 	violations  []Violation
 	vioSeen     map[string]int
 	frontier    []FrontierItem
-	stats       struct{ paths, forks, steps, asserts, assertUnsat, unknown, concretize, domDecided, decisions int }
+	stats       struct{ paths, forks, steps, asserts, assertUnsat, unknown, concretize, domDecided, decisions, cacheHits int }
+	qcache      map[string]qcEntry
+	concRet     map[string]bool
 	endStatus   map[string]int
 	endSamples  map[string]string
 	allCovers   map[string]int
@@ -116,6 +123,7 @@ type Machine struct {
 type snapshot struct {
 	heapNext  int
 	nObjs     int
+	nMaps     int
 	nAllocs   int
 	globals   map[*ssa.Global]*Obj
 	strObjs   map[string]*Obj
@@ -140,6 +148,7 @@ var (
 	dbgNoReuse = os.Getenv("VF_NOREUSE") != ""
 	dbgNoMerge = os.Getenv("VF_NOMERGE") != ""
 	dbgDec     = os.Getenv("VF_TRACEDEC") != ""
+	dbgNoCache = os.Getenv("VF_NOCACHE") != ""
 )
 
 // packages whose globals may be read as zero values without running their init (CPU feature words: "no features")
@@ -174,6 +183,11 @@ func NewMachine(ld *loaded, job *Job) *Machine {
 		}
 	}
 	m.sets = job.Sets
+	m.qcache = map[string]qcEntry{}
+	m.concRet = map[string]bool{}
+	for _, f := range job.ConcRet {
+		m.concRet[f] = true
+	}
 	m.mergeChains = !dbgNoMerge
 	if job.DeadlineS > 0 {
 		m.deadline = time.Now().Add(time.Duration(job.DeadlineS * float64(time.Second)))
@@ -205,6 +219,11 @@ func (m *Machine) resetPath() {
 	m.ufMemo = map[string]Val{}
 	m.pathCalls = map[string]int{}
 	m.watch = map[string]bool{}
+	m.pinned = map[*Term]uint64{}
+	m.pinGen = 0
+	m.pevalMemo = map[*Term]uint64{}
+	m.pevalNeg = map[*Term]int{}
+	m.passerts = m.passerts[:0]
 	m.lastArgs = map[string][]Val{}
 	m.observed = nil
 	m.mapIters = map[*Obj]*mapIterState{}
@@ -221,6 +240,10 @@ func (m *Machine) resetPath() {
 		}
 		m.dirtyMaps = m.dirtyMaps[:0]
 		m.heap.next = s.heapNext
+		for _, mo := range m.heap.maps[s.nMaps:] {
+			delete(m.heap.mapOf, mo.hdr)
+		}
+		m.heap.maps = m.heap.maps[:s.nMaps]
 		m.heap.objs = m.heap.objs[:s.nObjs]
 		m.heap.allocs = m.heap.allocs[:s.nAllocs]
 		m.heap.typeDescs = copyMap(s.typeDescs)
@@ -268,7 +291,7 @@ func (m *Machine) takeSnapshot() {
 	for _, mo := range m.heap.maps {
 		mo.snap = true
 	}
-	m.snap = &snapshot{heapNext: m.heap.next, nObjs: len(m.heap.objs), nAllocs: len(m.heap.allocs), globals: copyMap(m.globals), strObjs: copyMap(m.strObjs),
+	m.snap = &snapshot{heapNext: m.heap.next, nMaps: len(m.heap.maps), nObjs: len(m.heap.objs), nAllocs: len(m.heap.allocs), globals: copyMap(m.globals), strObjs: copyMap(m.strObjs),
 		rtypes: copyMap(m.rtypes), rtypeOf: copyMap(m.rtypeOf), atomics: copyMap(m.atomics), typeDescs: copyMap(m.heap.typeDescs), initDone: copyMap(m.initDone),
 		nondets: append([]*Term{}, m.nondets...), nondetEnv: append([]bool{}, m.nondetEnv...), steps: m.steps}
 }
@@ -297,9 +320,119 @@ func (m *Machine) evalModel(t *Term) uint64 {
 	return Eval(t, m.model, map[*Term]uint64{})
 }
 
+// pin records facts of the form t == const (and Boolean literals) that the path condition contains syntactically.
+func (m *Machine) pin(c *Term) {
+	switch {
+	case c.op == OEq && c.b.IsConst():
+		m.pinned[c.a] = c.b.c
+	case c.op == OEq && c.a.IsConst():
+		m.pinned[c.b] = c.a.c
+	case c.op == ONot:
+		m.pinned[c.a] = 0
+		if x := c.a; x.op == OOr { // not(a or b): both false
+			m.pin(Not(x.a))
+			m.pin(Not(x.b))
+		}
+	case c.op == OAnd:
+		m.pin(c.a)
+		m.pin(c.b)
+	}
+	if c.w == 0 && c.op != OConst {
+		m.pinned[c] = 1
+	}
+	m.pinGen++
+}
+
+// peval evaluates t when its value is implied by the pinned facts alone (no solver). Sound: pinned facts are conjuncts
+// of the path condition.
+func (m *Machine) peval(t *Term) (uint64, bool) {
+	if t.op == OConst {
+		return t.c, true
+	}
+	if v, ok := m.pinned[t]; ok {
+		return v, true
+	}
+	if t.op == OVar {
+		return 0, false
+	}
+	if v, ok := m.pevalMemo[t]; ok {
+		return v, true
+	}
+	if g, ok := m.pevalNeg[t]; ok && g == m.pinGen {
+		return 0, false
+	}
+	v, ok := m.pevalOp(t)
+	if ok {
+		m.pevalMemo[t] = v
+	} else {
+		m.pevalNeg[t] = m.pinGen
+	}
+	return v, ok
+}
+
+func (m *Machine) pevalOp(t *Term) (uint64, bool) {
+	switch t.op {
+	case OIte:
+		c, ok := m.peval(t.a)
+		if !ok {
+			x, ok1 := m.peval(t.b)
+			y, ok2 := m.peval(t.d)
+			if ok1 && ok2 && x == y {
+				return x, true
+			}
+			return 0, false
+		}
+		if c != 0 {
+			return m.peval(t.b)
+		}
+		return m.peval(t.d)
+	case OAnd:
+		x, ok1 := m.peval(t.a)
+		y, ok2 := m.peval(t.b)
+		if (ok1 && x == 0) || (ok2 && y == 0) {
+			return 0, true
+		}
+		return x & y, ok1 && ok2
+	case OOr:
+		x, ok1 := m.peval(t.a)
+		y, ok2 := m.peval(t.b)
+		if (ok1 && x == 1) || (ok2 && y == 1) {
+			return 1, true
+		}
+		return x | y, ok1 && ok2
+	case OBvAnd:
+		x, ok1 := m.peval(t.a)
+		y, ok2 := m.peval(t.b)
+		if (ok1 && x == 0) || (ok2 && y == 0) {
+			return 0, true
+		}
+		return x & y, ok1 && ok2
+	case OBvMul:
+		x, ok1 := m.peval(t.a)
+		y, ok2 := m.peval(t.b)
+		if (ok1 && x == 0) || (ok2 && y == 0) {
+			return 0, true
+		}
+		return (x * y) & mask(t.w), ok1 && ok2
+	}
+	var vals [3]uint64
+	for i, k := range [3]*Term{t.a, t.b, t.d} {
+		if k == nil {
+			continue
+		}
+		v, ok := m.peval(k)
+		if !ok {
+			return 0, false
+		}
+		vals[i] = v
+	}
+	return evalOp(t, vals[0], vals[1], vals[2]), true
+}
+
 func (m *Machine) takeCond(c *Term) {
 	m.pc = append(m.pc, c)
 	m.pcset[c] = true
+	m.pin(c)
 	defer func() {
 		if m.lvl >= m.common {
 			m.solver.Push()
@@ -342,6 +475,10 @@ func (m *Machine) branch(c *Term) bool {
 		if m.pcset[Not(c)] {
 			return false
 		}
+		if v, ok := m.peval(c); ok {
+			m.stats.domDecided++
+			return v == 1
+		}
 	}
 	if v := soleVar(c); !dbgNoDom && v != nil && v != multiVar {
 		_, all, none := m.trueSet(c, v)
@@ -373,14 +510,9 @@ func (m *Machine) branch(c *Term) bool {
 	if other == 0 {
 		oc = Not(c)
 	}
-	m.solver.Push()
-	m.solver.Assert(oc)
-	r := m.solver.Check()
+	r, mod := m.checkCached(oc)
 	if r == "sat" || r == "unknown" {
-		var mod map[string]uint64
-		if r == "sat" {
-			mod = m.solver.Model(m.nondets)
-		} else {
+		if r != "sat" {
 			m.stats.unknown++
 			mod = copyModel(m.model)
 		}
@@ -391,7 +523,6 @@ func (m *Machine) branch(c *Term) bool {
 			fmt.Fprintf(os.Stderr, "  branch k=%d first=%d other feasible (%s) at %s: %s\n", k, first, r, m.curIns.Parent(), m.curIns)
 		}
 	}
-	m.solver.Pop(1)
 	if dbgDec && r == "unsat" {
 		fmt.Fprintf(os.Stderr, "  branch k=%d first=%d other INFEASIBLE at %s: %s\n", k, first, m.curIns.Parent(), m.curIns)
 	}
@@ -409,6 +540,10 @@ func (m *Machine) concInt(t *Term, what string) int {
 	if t.IsConst() {
 		return int(sx(t.w, t.c))
 	}
+	// already determined by earlier concretisations or assumptions on this path
+	if v, ok := m.peval(t); ok {
+		return int(sx(t.w, v))
+	}
 	k := m.dec
 	m.atFrontier(k)
 	m.dec++
@@ -419,20 +554,20 @@ func (m *Machine) concInt(t *Term, what string) int {
 		return v
 	}
 	m.stats.concretize++
+	if dbgDec && m.curIns != nil {
+		fmt.Fprintf(os.Stderr, "  CONC %s at %s: %s\n", what, m.curIns.Parent(), m.curIns)
+	}
 	v0 := int(sx(t.w, m.evalModel(t)))
 	excl := Not(Eq(t, Const(t.w, uint64(v0))))
 	n := 0
-	m.solver.Push()
 	for {
-		m.solver.Assert(excl)
-		r := m.solver.Check()
+		r, mod := m.checkCached(excl)
 		if r != "sat" {
 			if r == "unknown" {
 				m.stats.unknown++
 			}
 			break
 		}
-		mod := m.solver.Model(m.nondets)
 		v := int(sx(t.w, Eval(t, mod, map[*Term]uint64{})))
 		np := append(append([]int{}, m.prefix[:k]...), v)
 		m.pending = append(m.pending, pendingPath{np, mod})
@@ -440,15 +575,13 @@ func (m *Machine) concInt(t *Term, what string) int {
 		if dbgDec {
 			fmt.Fprintf(os.Stderr, "  conc k=%d %s alt=%d (v0=%d)\n", k, what, v, v0)
 		}
-		excl = Not(Eq(t, Const(t.w, uint64(v))))
+		excl = And(excl, Not(Eq(t, Const(t.w, uint64(v)))))
 		n++
 		if n > m.maxConc {
-			m.solver.Pop(1)
 			m.pending = m.pending[:len(m.pending)-n]
 			endPath("BUDGET", "concretisation of %s has more than %d values", what, m.maxConc)
 		}
 	}
-	m.solver.Pop(1)
 	m.prefix = append(m.prefix, v0)
 	m.takeCond(Eq(t, Const(t.w, uint64(v0))))
 	return v0
@@ -526,6 +659,15 @@ func (m *Machine) addViolation(kind, id, msg string, mod map[string]uint64) {
 	m.violations = append(m.violations, Violation{id: id, kind: kind, msg: msg, model: mod, path: append([]int{}, m.prefix[:min(m.dec, len(m.prefix))]...), known: m.knownCur, wit: w, env: env})
 }
 
+type pendingAssert struct {
+	c     *Term
+	id    string
+	known string
+}
+
+// assert records an obligation; obligations of a path are discharged together when the path ends (one query when they
+// all hold). Every continuation of the assertion point is explored, so checking under the final path condition of each
+// continuation covers the path condition at the assertion point.
 func (m *Machine) assert(c *Term, id string) {
 	m.stats.asserts++
 	m.assertIDs[id]++
@@ -533,24 +675,62 @@ func (m *Machine) assert(c *Term, id string) {
 		m.stats.assertUnsat++
 		return
 	}
-	nc := Not(c)
-	m.solver.Push()
-	m.solver.Assert(nc)
-	r := m.solver.Check()
-	switch r {
-	case "unsat":
+	if v, ok := m.peval(c); ok && v == 1 {
 		m.stats.assertUnsat++
-		m.solver.Pop(1)
-	case "sat":
-		mod := m.solver.Model(m.nondets)
-		m.solver.Pop(1)
-		m.addViolation("ASSERT", id, "", mod)
-		m.assume(c) // continue under the assertion
-	default:
-		m.stats.unknown++
-		m.solver.Pop(1)
-		if len(m.endSamples["UNKNOWN-ASSERT"]) == 0 {
-			m.endSamples["UNKNOWN-ASSERT"] = id
+		return
+	}
+	m.passerts = append(m.passerts, pendingAssert{c, id, m.knownCur})
+	if len(m.passerts) >= 64 {
+		m.flushAsserts()
+	}
+}
+
+func (m *Machine) flushAsserts() {
+	pa := m.passerts
+	m.passerts = m.passerts[:0]
+	for len(pa) > 0 {
+		d := Bool(false)
+		for _, a := range pa {
+			d = Or(d, Not(a.c))
+		}
+		r, mod := m.checkCached(d)
+		switch r {
+		case "unsat":
+			m.stats.assertUnsat += len(pa)
+			return
+		case "sat":
+			var rest []pendingAssert
+			hit := false
+			for _, a := range pa {
+				if Eval(a.c, mod, map[*Term]uint64{}) == 0 {
+					hit = true
+					saved := m.knownCur
+					m.knownCur = a.known
+					m.addViolation("ASSERT", a.id, "", mod)
+					m.knownCur = saved
+				} else {
+					rest = append(rest, a)
+				}
+			}
+			if !hit { // model evaluation disagrees with the solver: never report success
+				m.stats.unknown += len(pa)
+				return
+			}
+			pa = rest
+		default:
+			// decide one by one so that a single hard obligation does not hide the others
+			if len(pa) == 1 {
+				m.stats.unknown++
+				if len(m.endSamples["UNKNOWN-ASSERT"]) == 0 {
+					m.endSamples["UNKNOWN-ASSERT"] = pa[0].id
+				}
+				return
+			}
+			for _, a := range pa {
+				m.passerts = append(m.passerts[:0], a)
+				m.flushAsserts()
+			}
+			return
 		}
 	}
 }
@@ -661,6 +841,11 @@ func (m *Machine) Explore(entry *ssa.Function) {
 		pp := m.pending[len(m.pending)-1]
 		m.pending = m.pending[:len(m.pending)-1]
 		st, msg := m.runPath(entry, pp)
+		if st != "ASSUME" {
+			m.flushAsserts()
+		} else {
+			m.passerts = m.passerts[:0]
+		}
 		if dbgDec {
 			w, _ := m.witness(m.model)
 			fmt.Fprintf(os.Stderr, "path %d prefix=%v -> %s %s dec=%d final=%v wit=%s\n", m.stats.paths, pp.prefix, st, msg, m.dec, m.prefix, witnessStr(w))
@@ -704,6 +889,7 @@ func (m *Machine) Explore(entry *ssa.Function) {
 func (m *Machine) fill(res *Result) {
 	res.Paths, res.Forks, res.Steps, res.Decisions = m.stats.paths, m.stats.forks, m.stats.steps, m.stats.decisions
 	res.Concretize, res.DomDecided = m.stats.concretize, m.stats.domDecided
+	res.CacheHits = m.stats.cacheHits
 	res.Asserts, res.Discharged, res.Unknown = m.stats.asserts, m.stats.assertUnsat, m.stats.unknown
 	res.Queries, res.Sat, res.Unsat, res.SolverUnknown = m.solver.Queries, m.solver.Sat, m.solver.Unsat, m.solver.Unknown
 	res.SolverS = m.solver.Time.Seconds()
@@ -922,6 +1108,11 @@ func (m *Machine) call(fn *ssa.Function, args []Val, env []Val) Val {
 					res = a
 				}
 				m.depth--
+				if len(m.concRet) > 0 && m.concRet[fn.String()] {
+					if t, ok := res.(*Term); ok && !t.IsConst() && t.w > 0 {
+						res = Const(t.w, uint64(m.concInt(t, "result of "+fn.Name())))
+					}
+				}
 				return res
 			case *ssa.RunDefers:
 				for i := len(fr.defers) - 1; i >= 0; i-- {
@@ -1393,6 +1584,9 @@ func (m *Machine) strConcat(a, b Str) Str {
 func (m *Machine) valEq(t types.Type, a, b Val) *Term {
 	switch x := a.(type) {
 	case *Term:
+		if t != nil && isFloat(t) {
+			return m.floatBin(token.EQL, t, x, b.(*Term)).(*Term)
+		}
 		return Eq(x, b.(*Term))
 	case Ptr:
 		y, ok := b.(Ptr)
@@ -1595,8 +1789,41 @@ func (m *Machine) binop(op token.Token, t types.Type, a, b Val, bt types.Type) V
 	return nil
 }
 
+func fpIsNaN(x *Term) *Term {
+	if x.w == 32 {
+		return And(Eq(Extract(x, 30, 23), Const(8, 0xff)), Not(Eq(Extract(x, 22, 0), Const(23, 0))))
+	}
+	return And(Eq(Extract(x, 62, 52), Const(11, 0x7ff)), Not(Eq(Extract(x, 51, 0), Const(52, 0))))
+}
+
+func fpIsZero(x *Term) *Term { return Eq(Extract(x, x.w-2, 0), Const(x.w-1, 0)) }
+
+// fpKey maps IEEE bit patterns (non-NaN) to integers whose signed order is the floating-point order (with -0 < +0).
+func fpKey(x *Term) *Term {
+	neg := Eq(Extract(x, x.w-1, x.w-1), Const(1, 1))
+	return Ite(neg, BvNot(x), Bin(OBvOr, x, Const(x.w, uint64(1)<<(x.w-1))))
+}
+
 func (m *Machine) floatBin(op token.Token, t types.Type, x, y *Term) Val {
 	if !x.IsConst() || !y.IsConst() {
+		nan := Or(fpIsNaN(x), fpIsNaN(y))
+		eq := And(Not(nan), Or(Eq(x, y), And(fpIsZero(x), fpIsZero(y))))
+		lt := And(Not(nan), And(Ult(fpKey(x), fpKey(y)), Not(And(fpIsZero(x), fpIsZero(y)))))
+		gt := And(Not(nan), And(Ult(fpKey(y), fpKey(x)), Not(And(fpIsZero(x), fpIsZero(y)))))
+		switch op {
+		case token.EQL:
+			return eq
+		case token.NEQ:
+			return Not(eq)
+		case token.LSS:
+			return lt
+		case token.GTR:
+			return gt
+		case token.LEQ:
+			return Or(lt, eq)
+		case token.GEQ:
+			return Or(gt, eq)
+		}
 		endPath("UNSUPPORTED", "float op %s on symbolic value", op)
 	}
 	var a, b float64
@@ -1620,6 +1847,10 @@ func (m *Machine) floatBin(op token.Token, t types.Type, x, y *Term) Val {
 		return mkf(a * b)
 	case token.QUO:
 		return mkf(a / b)
+	case token.EQL:
+		return Bool(a == b)
+	case token.NEQ:
+		return Bool(a != b)
 	case token.LSS:
 		return Bool(a < b)
 	case token.LEQ:
@@ -1631,6 +1862,33 @@ func (m *Machine) floatBin(op token.Token, t types.Type, x, y *Term) Val {
 	}
 	endPath("UNSUPPORTED", "float binop %s", op)
 	return nil
+}
+
+// f32to64 is the exact widening conversion on bit patterns (sNaN is quieted as amd64 does).
+func f32to64(x *Term) *Term {
+	s := Extract(x, 31, 31)
+	e := Extract(x, 30, 23)
+	f := Extract(x, 22, 0)
+	frac := Concat(f, Const(29, 0))
+	isInfNaN := Eq(e, Const(8, 0xff))
+	isNaN := And(isInfNaN, Not(Eq(f, Const(23, 0))))
+	e0 := Eq(e, Const(8, 0))
+	f0 := Eq(f, Const(23, 0))
+	// normal
+	exp := Bin(OBvAdd, Zext(11, e), Const(11, 1023-127))
+	res := Concat(Concat(s, exp), frac)
+	// subnormal: value = f * 2^-149; normalise with the position of the leading one
+	l := Extract(bitlen(Zext(32, f)), 10, 0) // 1..23
+	shift := Bin(OBvSub, Const(52, 24), Zext(52, l)) // bring the leading one to bit 23
+	nf := Bin(OBvShl, Zext(52, f), shift)
+	subFrac := Concat(Extract(nf, 22, 0), Const(29, 0))
+	subExp := Bin(OBvAdd, Const(11, 1023-150), l)
+	sub := Concat(Concat(s, subExp), subFrac)
+	res = Ite(And(e0, Not(f0)), sub, res)
+	res = Ite(And(e0, f0), Concat(s, Const(63, 0)), res)
+	infnan := Concat(Concat(s, Const(11, 0x7ff)), Bin(OBvOr, frac, Ite(isNaN, Const(52, uint64(1)<<51), Const(52, 0))))
+	res = Ite(isInfNaN, infnan, res)
+	return res
 }
 
 func (m *Machine) convert(v Val, from, to types.Type) Val {
@@ -1750,6 +2008,9 @@ func (m *Machine) convert(v Val, from, to types.Type) Val {
 				return Const(64, math.Float64bits(float64(math.Float32frombits(uint32(x.c)))))
 			}
 			return Const(32, uint64(math.Float32bits(float32(math.Float64frombits(x.c)))))
+		}
+		if tw == 64 {
+			return f32to64(x)
 		}
 	case fb.Info()&types.IsInteger != 0 && tb.Info()&types.IsFloat != 0:
 		if x.IsConst() {
@@ -1889,6 +2150,11 @@ func widenIndex(t *Term, ty types.Type) *Term {
 func (m *Machine) newMap(t *types.Map) *MapObj {
 	m.heap.next++
 	mo := &MapObj{id: m.heap.next, typ: t}
+	mo.hdr = m.heap.New(8, "hmap")
+	if m.heap.mapOf == nil {
+		m.heap.mapOf = map[*Obj]*MapObj{}
+	}
+	m.heap.mapOf[mo.hdr] = mo
 	m.heap.maps = append(m.heap.maps, mo)
 	return mo
 }
